@@ -500,6 +500,38 @@ class MpHistory(History):
         elif k == 2:
             self.on("rmall", r.choice(anc[-4:]))
 
+    def clear_step(self):
+        """clear() mostly while payloads of EVERY kind are waiting in flight (their common parent block is withheld);
+        afterwards the parent arrives WITHOUT the payloads being resubmitted, then a connect pass: nothing that was
+        cleared may come back"""
+        g, r = self.g, self.r
+        if r.chance(1, 4):
+            self.on("clear")
+            return
+        gap = g.mine_vbk()                        # withheld
+        waiting = [g.mine_vbk(gap)]               # a VbkBlock whose parent is unknown
+        e = self.recent_alt()
+        if e is not None:
+            t = g.make_atv(e, vparent=gap)
+            self.my_atvs.append(t)
+            waiting.append(t)
+        try:
+            w = g.make_vtb(gap, "b0", vparent=gap)
+            self.my_vtbs.append(w)
+            waiting.append(w)
+        except Rejected:
+            pass
+        r.shuffle(waiting)
+        for x in waiting:
+            self.submit(x)
+        self.on("clear")
+        self.stat("clear_with_inflight")
+        if r.chance(3, 4):
+            known = g.alt[self.tip()]["kv"]
+            for v in g.vpath(known, gap)[:16]:
+                self.submit(v)
+            self.gen(False) if r.chance(2, 3) else self.on("cleanup")
+
     # ---- tree changes
     def grow(self):
         """ALT block(s) through the World: honest bodies, context-heavy bodies (VBK tip far ahead), forks"""
@@ -582,7 +614,7 @@ class MpHistory(History):
         elif name == "cleanup":
             self.on("cleanup")
         elif name == "clear":
-            self.on("clear")
+            self.clear_step()
         elif name == "reload":
             if not getattr(self, "allow_reload", False):
                 return
@@ -598,7 +630,7 @@ class MpHistory(History):
             self.stat("setlim")
 
     W = [("create", 14), ("submit", 14), ("context", 14), ("chain", 8), ("mixed", 4), ("onchain", 8), ("grow", 12),
-         ("gen", 10), ("rmall", 4), ("cleanup", 8), ("clear", 2), ("reload", 0), ("limits", 2)]
+         ("gen", 10), ("rmall", 4), ("cleanup", 7), ("clear", 3), ("reload", 0), ("limits", 2)]
     APPLY = (1, 2)
 
 
